@@ -475,6 +475,11 @@ var c17Pieces = []c17Piece{
 	{"é", "utf8"}, {"ß", "utf8"}, {"漢", "utf8"}, {"\U0001F600", "utf8"}, {" ", "utf8"},
 	{"�", "utf8"},
 	{"\xff", "invalid"}, {"\xc3", "invalid"}, {"\xa9", "invalid"}, {"\xed\xa0\x80", "invalid"},
+	// look-alikes: text that resembles a JSON escape, an HTML-escaped sequence or a format verb once encoded
+	{"\\u003c", "lookalike"}, {"\\u003e", "lookalike"}, {"\\u0026", "lookalike"}, {"\\u0041", "lookalike"},
+	{"\\n", "lookalike"}, {"\\\"", "lookalike"}, {"\\\\", "lookalike"}, {"\\/", "lookalike"}, {"\\u2028", "lookalike"},
+	{"%d", "lookalike"}, {"%s", "lookalike"}, {"%", "lookalike"}, {"%!", "lookalike"}, {"&lt;", "lookalike"}, {"</script>", "lookalike"},
+	{"\u2028", "utf8"}, {"\u2029", "utf8"},
 	{"\xc0\x80", "invalid"}, {"\xf4\x90\x80\x80", "invalid"}, {"\xe2\x82", "invalid"}, {"\xf0\x9f\x98", "invalid"},
 }
 
